@@ -18,7 +18,7 @@ verdict = {}
 for l in r.stdout.splitlines():
     m = re.match(r'(C\d+) rc=(\d) (.*)', l)
     if m:
-        clauses = sorted(set(re.findall(r'replay=/verif/replay/C\d+-([A-Za-z0-9_.\-]+)\.json', m.group(3))))
+        clauses = sorted(set(re.findall(r'replay=\S*/replay/C\d+-([A-Za-z0-9_.\-]+)\.json', m.group(3))))
         verdict[m.group(1)] = {'exit': int(m.group(2)), 'failed_obligations': clauses} if int(m.group(2)) == 1 else {'exit': int(m.group(2)), 'note': m.group(3)[:200] if int(m.group(2)) == 2 else ''}
 meta = {
     'id': sid, 'breaks_property': prop,
